@@ -241,6 +241,15 @@ def _mirsym():
         bounds="1-3 values (quick) / 0-4 (thorough), all i64 except the NULL marker, optional symbolic null map; Column::new stubbed as a recorder, lz4/pco skipped; codec ops interpreted by the reference semantics shared with C01.d",
         spec=si.IntColEncodeSpec(), stubs=["Column::new -> records (len, range, codec, data sections)", "Column::lz4_or_pco_encode -> no-op (pco / lz4_flex assumed lossless)"])
 
+    from .specs import stringpack as ssp
+    add("C01.e/packed_strings", "C01", "mirsym", Q, "PackedStrings::push x k then StringPackerIterator::next x (k+1): every string comes back byte-exact with its length, then None",
+        ["stringpack::PackedStrings::push", "stringpack::<impl Iterator for StringPackerIterator>::next"],
+        bounds="1-3 strings with lengths from {0,1,2,254,255,256,510} (quick) + {253,509,511,765} (thorough); first and last byte of each string symbolic ASCII, the rest concrete",
+        spec=ssp.PackedStringsSpec())
+    add("C01.e/packed_bytes", "C01", "mirsym", Q, "PackedBytes::from_iterator then PackedBytesIterator::next x (k+1) (hex-packed string columns): every byte string comes back exact, then None",
+        ["stringpack::PackedBytes::from_iterator", "stringpack::<impl Iterator for PackedBytesIterator>::next"],
+        bounds="same length sets as C01.e/packed_strings", spec=ssp.PackedBytesSpec())
+
 
 _mirsym()
 
